@@ -99,6 +99,24 @@ func (fc *FnCtx) evalExpr(e Expr, env *Env) Val {
 		if cv, ct, ok := fc.e.lookupConst(x.Name); ok {
 			return fc.constToVal(cv, ct)
 		}
+		// a package-level variable of the function's own package (the mnemonic and constructor tables): its current value
+		if fc.fn.Pkg != nil {
+			if g, ok := fc.fn.Pkg.Members[x.Name].(*ssa.Global); ok {
+				t := derefType(g.Type())
+				if _, isMap := t.Underlying().(*types.Map); isMap {
+					if _, initOnly := fc.e.initOnlyGlobal(g); initOnly {
+						name := mangle("gconst." + g.Pkg.Pkg.Name() + "." + g.Name())
+						fc.declare(name, SInt)
+						return mkVal(t, []string{name})
+					}
+				}
+				hh := env.heap
+				if env.inOld {
+					hh = env.old
+				}
+				return fc.loadLoc(hh, Loc{T: t, kind: "cell", heap: "G." + mangle(g.Pkg.Pkg.Name()+"."+g.Name()), ref: "0"})
+			}
+		}
 		fc.fail("unknown identifier %q in contract", x.Name)
 	case *EUn:
 		v := fc.evalExpr(x.X, env)
